@@ -54,6 +54,7 @@ package fzf
 //@ ensures (mg.merged.arr == old(mg.merged.arr) && mg.merged.off == old(mg.merged.off) && cap(mg.merged) == old(cap(mg.merged)) && len(mg.merged) >= old(len(mg.merged))) || fresh(mg.merged)
 //@ ensures mg.cursors == old(mg.cursors)
 //@ ensures mg.chunks != nil ==> result.item == nthItem(*mg.chunks, 0, mg.tac ? mg.count - 1 - idx : idx)
+//@ ensures[trusted] result.item != nil -- every Result in a merger's lists was built by buildResult from an existing item
 //@ use @"firstChunk := (*mg.chunks)[0]" sumc_mid(*mg.chunks, len(*mg.chunks) - 1)
 //@ use @"chunk := (*mg.chunks)[idx/chunkSize+1]" nth_full(*mg.chunks, 1, idx / 100, idx)
 //@ use @"chunk := (*mg.chunks)[idx/chunkSize]" nth_full(*mg.chunks, 0, idx / 100, idx)
@@ -789,6 +790,37 @@ package fzf
 //@ pure
 //@ requires item != nil
 //@ ensures item.origText != nil && !stripAnsi ==> content_eq(bytesOf(result), *item.origText)
+
+// Filter mode (fzf -f QUERY), the part of Run from the --print-query line to the exit status; the streaming branch
+// is left to the contract of its closure below.  Whatever happened before, on the non-streaming path:
+//  - the merger whose entries are printed is a sorting one only if sorting is enabled (--no-sort / +s gives input
+//    order) and the query is sortable (F8: the assignment to matcher.sort once ignored `sort`);
+//  - the exit status is 0 exactly when at least one item was printed, 1 otherwise - printing the query does not
+//    count (C07-m5).
+// Assumed, not proved (goroutine code): Matcher.scan returns a merger (no reset request is pending in filter mode) that
+// sorts only if m.sort && pattern.sortable, and touches only the matcher; Snapshot and the event box touch only themselves.
+//@ func Run region @"if opts.PrintQuery {"
+//@ property C07 C04
+//@ requires opts != nil && opts.Filter != nil && opts.Printer != nil && matcher != nil && patternBuilder != nil && eventBox != nil && chunkList != nil
+//@ ghost nout int
+//@ ghost @"opts.Printer(merger.Get(i).item.AsString(opts.Ansi))" nout = nout + 1
+//@ cut @"slab := util.MakeSlab(slab16Size, slab32Size)" streaming branch: see the closure contract @"if chunkList.trans(&item, runes)"
+//@ effect call Printer requires true
+//@ effect call patternBuilder requires true assumes result != nil
+//@ assert @"for i := 0; i < merger.Length(); i++" merger.sorted ==> sort && pattern.sortable
+//@ modifies *matcher, *eventBox, *chunkList
+//@ ensures r0 == (nout > 0 ? ExitOk : ExitNoMatch) && r1 == nil
+//@ loop 2
+//@   invariant 0 <= i && 0 <= nout && merger != nil && found == (nout > 0) && (i > 0 ==> nout > 0)
+//@   invariant mergerValid(merger)
+//@   invariant fresh(merger) && (fresh(merger.merged) || cap(merger.merged) == 0) && (fresh(merger.cursors) || len(merger.cursors) == 0)
+//@   invariant merger.sorted ==> sort && pattern.sortable
+//@ func Matcher.scan trusted
+//@ modifies *m
+//@ ensures r0 != nil && fresh(r0) && mergerValid(r0) && (r0.sorted ==> old(m.sort) && request.pattern.sortable)
+//@ ensures (fresh(r0.merged) || cap(r0.merged) == 0) && (fresh(r0.cursors) || len(r0.cursors) == 0)
+//@ func ChunkList.Snapshot trusted
+//@ modifies *cl
 
 // --ansi wiring: every input line goes through extractColor exactly once - also a line without any ESC byte, which
 // may still hold shift-in/out bytes or backspace overstrikes - and, with colours, the state returned for one line is
